@@ -10,6 +10,7 @@ Proof. vm_compute. reflexivity. Qed.
 (* the items that hand out identities or cache answers: each is covered by a theorem of Deep_Caches_C20.v
    (FreshCounter -> counter_observations_history_independent; ContentKeyed -> memo_answers_function_of_key,
     registry_identity_is_key_identity).  A new one changes this list and has to be argued. *)
-Lemma caches_pinned_lemma : caches =
+Definition caches_expected : list string :=
   ["GLOBAL_SYMBOL_REGISTRY"; "ASYNC_EVAL_QUEUE_INDEX"; "SYMBOL_HASH_COUNT"; "CODEBLOCK_ID_COUNTER"; "RAW_STATICS_CACHE"].
+Lemma caches_pinned_lemma : caches = caches_expected.
 Proof. vm_compute. reflexivity. Qed.
